@@ -515,8 +515,6 @@ func (r *FileRestorer) restoreIdent(n *dst.Ident, parentName, parentField, paren
 	out := &ast.SelectorExpr{}
 	r.Ast.Nodes[n] = out
 	r.Dst.Nodes[out] = n
-	r.Dst.Nodes[out.Sel] = n
-	r.Dst.Nodes[out.X] = n
 	r.applySpace(n, "Before", n.Decs.Before)
 
 	// Decoration: Start
@@ -537,6 +535,11 @@ func (r *FileRestorer) restoreIdent(n *dst.Ident, parentName, parentField, paren
 	// Decoration: End
 	r.applyDecorations(out, "End", n.Decs.End, true)
 	r.applySpace(n, "After", n.Decs.After)
+
+	// All three ast nodes of the qualified identifier map back to the dst.Ident they were created
+	// from (mirrors decorateSelectorExpr). This has to happen after X and Sel have been restored.
+	r.Dst.Nodes[out.X] = n
+	r.Dst.Nodes[out.Sel] = n
 
 	return out
 
